@@ -1,7 +1,10 @@
 #!/bin/sh
-# dev helper: build one Lean module, show errors and trace_state output of that module only (truncated)
-cd /verif/lean && timeout 1200 lake build "$1" 2>&1 | awk -v f="$2" '
-/^(error|info): / { show = (index($0, f) > 0); }
+# dev helper: build one Lean module, show errors / trace_state output of that module only (truncated).
+# usage: lk.sh Module FilePattern [maxlines] [maxcols]; GOAL=1 shows only the error headline and the goal (from ⊢) of each message
+cd /verif/lean && timeout 1200 lake build "$1" 2>&1 | awk -v f="$2" -v goal="${GOAL:-0}" '
+/^(error|info): / { show = (index($0, f) > 0); ing = 0; if (show) print; next }
 /^warning: / { show = 0 }
 /^Hint:/ { show = 0 }
-show { print }' | cut -c1-${4:-180} | head -${3:-80}
+/^⊢/ { ing = 1 }
+/^case / { if (goal == 1 && show && ing) { ing = 0 } }
+show { if (goal == 0 || ing) print }' | cut -c1-${4:-180} | head -${3:-80}
